@@ -74,9 +74,17 @@ func monC09(c *drv.Ctx) {
 		if r.Intn(3) == 0 {
 			o.bytesReader = true
 			o.capClass = r.Intn(4)
+			if r.Intn(6) == 0 {
+				// a zero-length (or tiny) slice whose backing array is a 4096-byte scratch buffer
+				spec.Len = r.Intn(3)
+				o.capClass = 4
+			}
 			// power-of-two sized caller buffers are the ones the real pool would accept
 			if r.Intn(2) == 0 {
 				spec.Len = []int{64, 1024, 4096, 8192, 16384}[r.Intn(5)]
+				if o.capClass == 4 {
+					spec.Len = r.Intn(3)
+				}
 				if o.capClass == 0 {
 					o.capClass = 1
 				}
